@@ -265,6 +265,16 @@ class _Canon(ast.NodeTransformer):
 
     def visit_Call(self, n):
         self.generic_visit(n)
+        # S32: f(a, *(x, y)) -> f(a, x, y)   (a starred tuple/list display is just its elements)
+        if any(isinstance(a, ast.Starred) and isinstance(a.value, (ast.Tuple, ast.List)) for a in n.args):
+            new_args = []
+            for a in n.args:
+                if isinstance(a, ast.Starred) and isinstance(a.value, (ast.Tuple, ast.List)):
+                    new_args.extend(a.value.elts)
+                else:
+                    new_args.append(a)
+            n.args = new_args
+            self.steps.append('S32 starred display splatted')
         if isinstance(n.func, ast.Name) and n.func.id == 'range' and not n.keywords and U(n) not in self.calls:
             alt = None
             if len(n.args) == 1:
@@ -1529,3 +1539,48 @@ def expand_enumerate_counters(rel, module):
         if lname in done:
             ast.fix_missing_locations(fn)
     return done
+
+
+# ---------------------------------------------------------------------------------------------------------------
+def renumber(module):
+    """After the rewriting steps statements produced by inlining / unrolling share the position of the statement they replaced.
+    Rules order statements by line number, so every function whose statements are not in strictly increasing line order gets
+    synthetic, strictly increasing line numbers (document order); the real position is kept in `_orig_lineno` for reports."""
+    changed = False
+    for lname, fn in module.funcs.items():
+        order = _stmts_in_order(fn)
+        mono = all(order[i].lineno < order[i + 1].lineno or
+                   (order[i].lineno == order[i + 1].lineno and False) for i in range(len(order) - 1))
+        if mono:
+            continue
+        changed = True
+        last = fn.lineno
+        for st in order:
+            new = st.lineno if st.lineno > last else last + 1
+
+            def own_nodes(n):
+                # nodes of the statement itself, not of nested statements
+                todo = [n]
+                while todo:
+                    x = todo.pop()
+                    yield x
+                    for f_, v in ast.iter_fields(x):
+                        if f_ in ('body', 'orelse', 'finalbody', 'handlers') and isinstance(v, list) and v and isinstance(v[0], (ast.stmt, ast.excepthandler)):
+                            continue
+                        if isinstance(v, ast.AST):
+                            todo.append(v)
+                        elif isinstance(v, list):
+                            todo.extend(y for y in v if isinstance(y, ast.AST))
+            if new != st.lineno:
+                for x in own_nodes(st):
+                    if hasattr(x, 'lineno'):
+                        if not hasattr(x, '_orig_lineno'):
+                            x._orig_lineno = x.lineno
+                        x.lineno = new
+                        x.end_lineno = new
+            last = new
+            for h in getattr(st, 'handlers', []) or []:
+                if h.lineno <= last:
+                    h._orig_lineno = h.lineno
+                    h.lineno = last
+    return changed
